@@ -12,5 +12,8 @@ CONSTANTS
  DevDefineFirstOnly = FALSE
  DevPairsUntyped = FALSE
  DevTableMacrosKept = FALSE
+ DevDefineLazyCond = FALSE
+ DevDefineBlockDropped = FALSE
+ DevDefineInactiveKept = FALSE
 INVARIANT LookupAgrees
 CHECK_DEADLOCK FALSE
